@@ -342,6 +342,10 @@ func (x *Exec) eval(e ast.Expr, st *State, sp *SpecCtx) Value {
 		return x.evalIdent(e, st, sp)
 	case *ast.SelectorExpr, *ast.IndexExpr, *ast.StarExpr:
 		if sel, ok := e.(*ast.SelectorExpr); ok && sp != nil {
+			// field chain of a spec-bound struct VALUE (result0.DZ.Num of a function that returns a struct)
+			if fv, ok := x.boundFieldChain(sel, sp); ok {
+				return fv
+			}
 			if id, ok := sel.X.(*ast.Ident); ok {
 				// field of a spec-bound struct value (e.g. the struct key of a quantified map key)
 				if bvv, isB := sp.bound[id.Name]; isB && bvv.Fields != nil && bvv.Ptr == nil {
@@ -467,6 +471,39 @@ func (x *Exec) eval(e ast.Expr, st *State, sp *SpecCtx) Value {
 	}
 	x.abstract(fmt.Sprintf("expression %T", e))
 	return x.freshValue("expr", x.typeOf(e, sp), st)
+}
+
+// boundFieldChain: a.b.c where a is bound in the spec context to a struct value (not a reference).
+func (x *Exec) boundFieldChain(sel *ast.SelectorExpr, sp *SpecCtx) (Value, bool) {
+	var names []string
+	var cur ast.Expr = sel
+	for {
+		s, ok := cur.(*ast.SelectorExpr)
+		if !ok {
+			break
+		}
+		names = append([]string{s.Sel.Name}, names...)
+		cur = s.X
+	}
+	id, ok := cur.(*ast.Ident)
+	if !ok || len(names) < 2 {
+		return Value{}, false
+	}
+	v, isB := sp.bound[id.Name]
+	if !isB || v.Fields == nil || v.Ptr != nil {
+		return Value{}, false
+	}
+	for _, n := range names {
+		if v.Fields == nil {
+			return Value{}, false
+		}
+		fv, has := v.Fields[n]
+		if !has {
+			return Value{}, false
+		}
+		v = fv
+	}
+	return v, true
 }
 
 func (x *Exec) evalLit(e *ast.BasicLit) Value {
@@ -1217,9 +1254,11 @@ type Outcomes struct {
 	Breaks []Jump
 	Conts  []Jump
 	Rets   []Ret
+	Gotos  []Jump // forward goto to a label of an enclosing statement list
 }
 
 func (o *Outcomes) absorb(p Outcomes) {
+	o.Gotos = append(o.Gotos, p.Gotos...)
 	o.Breaks = append(o.Breaks, p.Breaks...)
 	o.Conts = append(o.Conts, p.Conts...)
 	o.Rets = append(o.Rets, p.Rets...)
@@ -1230,9 +1269,29 @@ func (x *Exec) execBlock(stmts []ast.Stmt, st *State) Outcomes {
 	cur := st
 	for i := 0; i < len(stmts); i++ {
 		s := stmts[i]
-		if cur == nil || cur.pc.IsFalse() {
-			cur = nil
-			break
+		if (cur == nil || cur.pc.IsFalse()) && len(out.Gotos) > 0 {
+			// the normal flow has ended but a forward goto may still join at a label further down this list
+			found := -1
+			for k := i; k < len(stmts) && found < 0; k++ {
+				if ls, ok := stmts[k].(*ast.LabeledStmt); ok {
+					for _, j := range out.Gotos {
+						if j.Label == ls.Label.Name {
+							found = k
+						}
+					}
+				}
+			}
+			if found >= 0 {
+				i = found
+				s = stmts[i]
+				cur = nil
+			}
+		}
+		if _, isLabel := s.(*ast.LabeledStmt); !isLabel || len(out.Gotos) == 0 {
+			if cur == nil || cur.pc.IsFalse() {
+				cur = nil
+				break
+			}
 		}
 		if x.inlineDepth == 0 && len(x.subRegions) > 0 {
 			if sr := x.subRegions[s]; sr != nil && i+len(sr.stmts) <= len(stmts) && stmts[i+len(sr.stmts)-1] == sr.stmts[len(sr.stmts)-1] {
@@ -1241,6 +1300,26 @@ func (x *Exec) execBlock(stmts []ast.Stmt, st *State) Outcomes {
 				cur = o.Normal
 				i += len(sr.stmts) - 1
 				continue
+			}
+		}
+		if ls, ok := s.(*ast.LabeledStmt); ok && len(out.Gotos) > 0 {
+			// forward gotos to this label join the normal flow here
+			var rest []Jump
+			joined := []*State{}
+			if cur != nil && !cur.pc.IsFalse() {
+				joined = append(joined, cur)
+			}
+			for _, j := range out.Gotos {
+				if j.Label == ls.Label.Name {
+					joined = append(joined, j.St)
+				} else {
+					rest = append(rest, j)
+				}
+			}
+			out.Gotos = rest
+			cur = x.mergeAll(joined)
+			if cur == nil {
+				break
 			}
 		}
 		o := x.execStmt(s, cur, "")
@@ -1398,6 +1477,12 @@ func (x *Exec) execStmt1(s ast.Stmt, st *State, label string) Outcomes {
 			return Outcomes{Breaks: []Jump{{lbl, st}}}
 		case token.CONTINUE:
 			return Outcomes{Conts: []Jump{{lbl, st}}}
+		}
+		if s.Tok == token.GOTO && lbl != "" {
+			// forward goto: the path leaves the normal flow and joins it again at the label (execBlock of the list that
+			// holds the labelled statement); a goto whose label is never met (backward jump) ends the path - listed
+			x.abstract("goto " + lbl + " (modelled as a forward jump to its label)")
+			return Outcomes{Gotos: []Jump{{lbl, st}}}
 		}
 		x.abstract("goto/fallthrough")
 		return Outcomes{Normal: st}
@@ -1979,6 +2064,7 @@ func (x *Exec) iterate(lp *loopParts, st *State) (back *State, exits []*State, o
 	}
 	o := x.execBlock(lp.body.List, bodySt)
 	out.Rets = o.Rets
+	out.Gotos = o.Gotos
 	backs := []*State{}
 	if o.Normal != nil {
 		backs = append(backs, o.Normal)
